@@ -94,3 +94,26 @@ package hook
 //@   let interval := ite(cfg.Settings != nil, cfg.Settings.ExecutionMinInterval, 0)
 //@   let burst := ite(cfg.Settings != nil, cfg.Settings.ExecutionBurst, 0)
 //@   ensures [limiter] result == rate.NewLimiter(ite(interval != 0, rate.Every(interval), rate.Inf), ite(burst != 0, burst, 1))
+
+// C18: waiting for the rate limit of a hook is a Wait on the limiter built from this hook's
+// settings (the ghost lastWaitHook/lastWaitErr is the "token" Hook.Run requires).
+//@ func (*Hook).RateLimitWait
+//@   prop C18
+//@   requires h != nil && h.RateLimiter != nil
+//@   modifies rate.lastWaitLimiter, rate.lastLimiterErr, shell_operator.lastWaitHook, shell_operator.lastWaitErr
+//@   ghostset shell_operator.lastWaitHook := h
+//@   ghostset shell_operator.lastWaitErr := result
+//@   ensures [own-limiter] rate.lastWaitLimiter == h.RateLimiter && rate.lastLimiterErr == result
+
+// C18: the limiter of a hook is the one built from its parsed configuration.
+//@ package github.com/flant/shell-operator/pkg/hook/config
+//@ trusted func (*HookConfig).LoadAndValidate
+//@   modifies fields(c)
+//@ package github.com/flant/shell-operator/pkg/hook
+//@ func (*Hook).LoadConfig
+//@   prop C18
+//@   requires h != nil && h.Config != nil
+//@   modifies h.RateLimiter, fields(h.Config)
+//@   let interval := ite(h.Config.Settings != nil, h.Config.Settings.ExecutionMinInterval, 0)
+//@   let burst := ite(h.Config.Settings != nil, h.Config.Settings.ExecutionBurst, 0)
+//@   ensures [limiter-from-settings] result1 == nil ==> h.RateLimiter == rate.NewLimiter(ite(interval != 0, rate.Every(interval), rate.Inf), ite(burst != 0, burst, 1))
